@@ -177,6 +177,15 @@ class STensor(object):
         if self._val is None:
             raise OutOfSubset('value of an opaque tensor (%s) is needed' % (self.name or self.tid))
         idx = [self._norm_ix(a, i) for a, i in zip(self.axes, idx)]
+        if not self.axes:
+            # a 0-d tensor has one value: evaluate it once (terms abstracted by fresh constants -- norms, square roots of sums --
+            # must be the SAME constant every time the value is looked at)
+            c = getattr(self, '_cache0', None)
+            if c is not None and c[0] is self._val:
+                return c[1]
+            v = self._val(idx)
+            self._cache0 = (self._val, v)
+            return v
         return self._val(idx)
 
     def _norm_ix(self, axis, i):
@@ -739,11 +748,13 @@ def reshape(t, shape):
             for k, s_ in enumerate(shape):
                 flat = flat * s_ + idx[k][0]
             tup = unflatten(flat, srcq) if srcq else ()
-            return {f.id: v for f, v in zip(srcq, tup)}
+            return list(tup)
 
     def srcmap(idx):
-        fmap = mapping(idx)
-        return [tuple(fmap[f.id] for f in a.factors) for a in t.axes]
+        # keyed by POSITION in the flattened factor list: the same Factor object may sit in two axes (Phi[L,S,R] with L and R
+        # both taken from one QR factor), so the factor identity does not determine the axis
+        fmap = iter(mapping(idx))
+        return [tuple(next(fmap) for f in a.factors) for a in t.axes]
 
     def val(idx):
         return t.at(srcmap(idx))
@@ -827,8 +838,8 @@ def _regroup(src, shape):
     returns (axes, mapping) where mapping(idx) -> {source factor id: index expr}"""
     def unit(x):
         return known_eq(x, 1)
-    srcq = [f for f in src if not unit(f.size)]
-    pieces_of = {f.id: [] for f in srcq}     # source factor -> list of (piece factor, target axis k, position in the index tuple)
+    srcq = [(p, f) for p, f in enumerate(src) if not unit(f.size)]
+    pieces_of = {p: [] for p, f in srcq}     # source factor POSITION -> list of (piece factor, target axis k, position in the index tuple)
     axes = []
     i = 0
     rem = None
@@ -847,14 +858,14 @@ def _regroup(src, shape):
             if rem is None:
                 if i >= len(srcq):
                     raise OutOfSubset('reshape: target sizes %s do not align with factors %s' % (shape, src))
-                cur = srcq[i]
+                curp, cur = srcq[i]
                 i += 1
                 rem = cur.size
                 whole = True
             q = exact_div(need, rem)
             if q is not None:
                 pf = cur if whole else Factor(sz(rem))
-                pieces_of[cur.id].append((pf, k, len(run)))
+                pieces_of[curp].append((pf, k, len(run)))
                 run.append(pf)
                 need = q
                 rem = None
@@ -862,7 +873,7 @@ def _regroup(src, shape):
             q2 = exact_div(rem, need)
             if q2 is not None:
                 pf = Factor(sz(need))
-                pieces_of[cur.id].append((pf, k, len(run)))
+                pieces_of[curp].append((pf, k, len(run)))
                 run.append(pf)
                 rem = q2
                 whole = False
@@ -878,15 +889,13 @@ def _regroup(src, shape):
         raise OutOfSubset('reshape: leftover source factors')
 
     def mapping(idx):
-        fmap = {}
-        for f in src:
-            fmap[f.id] = 0
-        for f in srcq:
+        fmap = [0] * len(src)
+        for p, f in srcq:
             r = None
-            for pf, k, pos in pieces_of[f.id]:
+            for pf, k, pos in pieces_of[p]:
                 ix = idx[k][pos]
                 r = ix if r is None else r * pf.size + ix
-            fmap[f.id] = r if r is not None else 0
+            fmap[p] = r if r is not None else 0
         return fmap
     return axes, mapping
 
